@@ -1,6 +1,7 @@
 //! C17 — scripts build the same expressions as the Rust API.
 //! DESIGN.md §4 C17.
 use crate::c12::{tree_bin, tree_un};
+use crate::treecmp::{first_difference, struct_eq};
 use crate::runner::{Check, CrashPolicy, Cx, Meta, Tier, guard, panic_site};
 use fidget_core::context::{BinaryOpcode as B, Tree, UnaryOpcode as U};
 use fidget_shapes::types::{Vec2, Vec3};
@@ -292,6 +293,53 @@ fn specs() -> Vec<ShapeSpec> {
                 Field { name: "offset", val: Val::F(0.5), default: Some(Val::F(0.0)) },
             ],
             build: |v| ReflectX { shape: t(&v[0]), offset: f(&v[1]) }.into(),
+            unique_types: true,
+        },
+        ShapeSpec {
+            fname: "reflect_y",
+            fields: vec![
+                Field { name: "shape", val: probe(), default: None },
+                Field { name: "offset", val: Val::F(-1.5), default: Some(Val::F(0.0)) },
+            ],
+            build: |v| ReflectY { shape: t(&v[0]), offset: f(&v[1]) }.into(),
+            unique_types: true,
+        },
+        ShapeSpec {
+            fname: "reflect_z",
+            fields: vec![
+                Field { name: "shape", val: probe(), default: None },
+                Field { name: "offset", val: Val::F(0.25), default: Some(Val::F(0.0)) },
+            ],
+            build: |v| ReflectZ { shape: t(&v[0]), offset: f(&v[1]) }.into(),
+            unique_types: true,
+        },
+        ShapeSpec {
+            fname: "reflect_xy",
+            fields: vec![
+                Field { name: "shape", val: probe(), default: None },
+                Field { name: "offset", val: Val::F(2.0), default: Some(Val::F(0.0)) },
+            ],
+            build: |v| ReflectXY { shape: t(&v[0]), offset: f(&v[1]) }.into(),
+            unique_types: true,
+        },
+        ShapeSpec {
+            fname: "rotate_x",
+            fields: vec![
+                Field { name: "shape", val: probe(), default: None },
+                Field { name: "angle", val: Val::F(-45.0), default: Some(Val::F(0.0)) },
+                Field { name: "center", val: Val::V3([0.5, 1.0, -2.0]), default: Some(Val::V3([0.0, 0.0, 0.0])) },
+            ],
+            build: |v| RotateX { shape: t(&v[0]), angle: f(&v[1]), center: v3(&v[2]) }.into(),
+            unique_types: true,
+        },
+        ShapeSpec {
+            fname: "rotate_y",
+            fields: vec![
+                Field { name: "shape", val: probe(), default: None },
+                Field { name: "angle", val: Val::F(90.0), default: Some(Val::F(0.0)) },
+                Field { name: "center", val: Val::V3([-1.0, 0.25, 3.0]), default: Some(Val::V3([0.0, 0.0, 0.0])) },
+            ],
+            build: |v| RotateY { shape: t(&v[0]), angle: f(&v[1]), center: v3(&v[2]) }.into(),
             unique_types: true,
         },
         ShapeSpec {
@@ -633,6 +681,257 @@ fn vector_exprs(n: usize) -> Vec<VE> {
     out
 }
 
+/// Named mathematical constants the engine must resolve (values written from
+/// the Rust standard library / the closed form, not read from fidget-rhai)
+fn named_constants() -> Vec<(&'static str, f64)> {
+    use std::f64::consts as c;
+    vec![
+        ("PI", c::PI),
+        ("E", c::E),
+        ("TAU", c::TAU),
+        ("SQRT_2", c::SQRT_2),
+        ("LN_2", c::LN_2),
+        ("LN_10", c::LN_10),
+        ("LOG2_E", c::LOG2_E),
+        ("LOG10_E", c::LOG10_E),
+        ("FRAC_PI_2", c::FRAC_PI_2),
+        ("FRAC_PI_3", c::FRAC_PI_3),
+        ("FRAC_PI_4", c::FRAC_PI_4),
+        ("FRAC_PI_6", c::FRAC_PI_6),
+        ("FRAC_PI_8", c::FRAC_PI_8),
+        ("FRAC_1_PI", c::FRAC_1_PI),
+        ("FRAC_2_PI", c::FRAC_2_PI),
+        ("FRAC_2_SQRT_PI", c::FRAC_2_SQRT_PI),
+        ("FRAC_1_SQRT_2", c::FRAC_1_SQRT_2),
+        ("PHI", (1.0 + 5f64.sqrt()) / 2.0),
+        ("GOLDEN_RATIO", (1.0 + 5f64.sqrt()) / 2.0),
+    ]
+}
+
+fn constant_scripts() -> (Vec<(String, Tree)>, Vec<String>) {
+    use fidget_shapes::*;
+    let mut ok = vec![];
+    for (name, v) in named_constants() {
+        let c = v as f32;
+        ok.push((format!("(x + {name})"), Tree::x() + c));
+        ok.push((format!("({name} - y)"), Tree::constant(c) - Tree::y()));
+        ok.push((format!("max(z, {name})"), Tree::z().max(c)));
+        ok.push((format!("atan2({name}, x)"), Tree::constant(c).atan2(Tree::x())));
+        ok.push((format!("circle(#{{ radius: {name} }})"), Circle { center: Vec2::new(0.0, 0.0), radius: c }.into()));
+        // a script variable of the same name shadows the constant
+        ok.push((format!("let {name} = 3.0; (x * {name})"), Tree::x() * 3.0));
+        // number-only arithmetic on the constant is rhai's (f64), then coerced
+        ok.push((format!("(y / ({name} * 2.0))"), Tree::y() / ((v * 2.0) as f32)));
+    }
+    // the axis names are fall-backs too: a script variable shadows them
+    ok.push(("let x = 2.0; (x + y)".into(), Tree::constant(2.0) + Tree::y()));
+    ok.push(("let y = x; (y * y)".into(), Tree::x() * Tree::x()));
+    ok.push(("let z = 7; (z - x)".into(), Tree::constant(7.0) - Tree::x()));
+    ok.push(("let foo = (x + 1); let bar = foo * foo; (bar - foo)".into(), {
+        let foo = Tree::x() + 1.0;
+        let bar = foo.clone() * foo.clone();
+        bar - foo
+    }));
+    let bad = vec!["(x + NOPE)".to_string(), "(x + pi)".to_string(), "(Pi * y)".to_string(), "w".to_string()];
+    (ok, bad)
+}
+
+fn axes_remap_scripts() -> Vec<(String, Tree)> {
+    let mut ok: Vec<(String, Tree)> = vec![];
+    let (x, y, z) = Tree::axes();
+    ok.push(("axes().x".into(), x.clone()));
+    ok.push(("axes().y".into(), y.clone()));
+    ok.push(("axes().z".into(), z.clone()));
+    ok.push(("let a = axes(); ((a.x + a.y) * a.z)".into(), (x.clone() + y.clone()) * z.clone()));
+    ok.push(("let a = axes(); (a.z - a.x)".into(), z.clone() - x.clone()));
+    // remap(shape, x', y', z'), the method form, and the two-argument form
+    let shapes: Vec<(String, Tree)> = vec![
+        ("(x + (y * z))".into(), x.clone() + y.clone() * z.clone()),
+        ("min(x, (z - 1))".into(), x.clone().min(z.clone() - 1.0)),
+        ("[x, y]".into(), union_of(&[x.clone(), y.clone()])),
+        ("2".into(), Tree::constant(2.0)),
+    ];
+    let subst: Vec<(String, Tree)> = vec![
+        ("y".into(), y.clone()),
+        ("(x * 2)".into(), x.clone() * 2.0),
+        ("sin(z)".into(), z.clone().sin()),
+    ];
+    for (ss, st) in &shapes {
+        for (xs, xt) in &subst {
+            for (ys, yt) in &subst {
+                for (zs, zt) in &subst {
+                    let want = st.remap_xyz(xt.clone(), yt.clone(), zt.clone());
+                    ok.push((format!("remap({ss}, {xs}, {ys}, {zs})"), want.clone()));
+                    if ss != "2" {
+                        ok.push((format!("{ss}.remap({xs}, {ys}, {zs})"), want));
+                    }
+                }
+                let want = st.remap_xyz(xt.clone(), yt.clone(), Tree::z());
+                ok.push((format!("remap({ss}, {xs}, {ys})"), want.clone()));
+                if ss != "2" {
+                    ok.push((format!("{ss}.remap({xs}, {ys})"), want));
+                }
+            }
+        }
+    }
+    // nested: later remaps act on the coordinates first
+    ok.push((
+        "remap(remap((x - y), y, x, z), (x + 1), (y * 2), z)".into(),
+        (x.clone() - y.clone()).remap_xyz(y.clone(), x.clone(), z.clone()).remap_xyz(x.clone() + 1.0, y.clone() * 2.0, z.clone()),
+    ));
+    ok
+}
+
+/// Rotate (Tree, Axis, f32, Vec3) and Reflect (Tree, Plane): every spelling of
+/// an axis / a plane, in the map, positional (every order), tree-first + map
+/// and chained forms, with every subset of defaulted fields omitted
+fn axis_plane_scripts() -> (Vec<(String, Tree)>, Vec<String>) {
+    use fidget_shapes::types::{Axis, Plane};
+    use fidget_shapes::*;
+    let mut ok: Vec<(String, Tree)> = vec![];
+    let p = Tree::x() * Tree::y() + 2.0;
+    let ps = "(x * y + 2)";
+    let oblique = Axis::try_from(Vec3::new(1.0, 2.0, 2.0)).unwrap();
+    // (spelling, value, usable in the unique-typed positional form)
+    let axes: Vec<(&str, Axis, bool)> = vec![
+        ("\"x\"", Axis::X, true),
+        ("\"Y\"", Axis::Y, true),
+        ("'z'", Axis::Z, true),
+        ("'X'", Axis::X, true),
+        ("axis(\"y\")", Axis::Y, true),
+        ("axis('z')", Axis::Z, true),
+        ("axis(x)", Axis::X, true),
+        ("axis([0, 1, 0])", Axis::Y, true),
+        ("axis([1, 0])", Axis::X, true),
+        ("axis(vec3(0, 0, 1))", Axis::Z, true),
+        ("axis([1, 2, 2])", oblique, true),
+        ("axis(vec3(1.0, 2, 2.0))", oblique, true),
+        ("axis(axis(\"x\"))", Axis::X, true),
+        // in positional form these would be taken as the Tree / the Vec3
+        ("y", Axis::Y, false),
+        ("[0, 0, 1]", Axis::Z, false),
+        ("vec3(1, 2, 2)", oblique, false),
+    ];
+    let (angle, center) = (30.0f32, Vec3::new(1.0, 0.5, -2.0));
+    let (angle_s, center_s) = ("30", "[1, 0.5, -2]");
+    for (asp, aval, positional) in &axes {
+        // fields 1..=3 (axis, angle, center) present or omitted
+        for mask in 0..8u32 {
+            let has = |k: u32| (mask >> k) & 1 == 1;
+            let want: Tree = Rotate {
+                shape: p.clone(),
+                axis: if has(0) { *aval } else { Axis::Z },
+                angle: if has(1) { angle } else { 0.0 },
+                center: if has(2) { center } else { Vec3::new(0.0, 0.0, 0.0) },
+            }
+            .into();
+            let mut named: Vec<String> = vec![];
+            let mut args: Vec<String> = vec![];
+            if has(0) {
+                named.push(format!("axis: {asp}"));
+                args.push((*asp).to_string());
+            }
+            if has(1) {
+                named.push(format!("angle: {angle_s}"));
+                args.push(angle_s.to_string());
+            }
+            if has(2) {
+                named.push(format!("center: {center_s}"));
+                args.push(center_s.to_string());
+            }
+            ok.push((format!("rotate(#{{ shape: {ps}, {} }})", named.join(", ")), want.clone()));
+            if mask == 7 {
+                ok.push((format!("rotate({ps}, #{{ {} }})", named.join(", ")), want.clone()));
+                ok.push((format!("{ps}.rotate(#{{ {} }})", named.join(", ")), want.clone()));
+            }
+            if *positional || !has(0) {
+                let mut all = vec![ps.to_string()];
+                all.extend(args.iter().cloned());
+                for perm in permutations(all.len()) {
+                    let a: Vec<String> = perm.iter().map(|k| all[*k].clone()).collect();
+                    ok.push((format!("rotate({})", a.join(", ")), want.clone()));
+                }
+                ok.push((format!("{ps}.rotate({})", args.join(", ")), want.clone()));
+            }
+        }
+    }
+    // planes
+    let planes: Vec<(&str, Plane, bool)> = vec![
+        ("\"xy\"", Plane::XY, true),
+        ("\"YZ\"", Plane::YZ, true),
+        ("\"zx\"", Plane::ZX, true),
+        ("plane(\"xy\")", Plane::XY, true),
+        ("plane(\"zx\", 2.5)", Plane { axis: Plane::ZX.axis, offset: 2.5 }, true),
+        ("plane(\"x\")", Plane { axis: Axis::X, offset: 0.0 }, true),
+        ("plane('y', -1.5)", Plane { axis: Axis::Y, offset: -1.5 }, true),
+        ("plane(axis(\"z\"), 0.5)", Plane { axis: Axis::Z, offset: 0.5 }, true),
+        ("plane(z)", Plane { axis: Axis::Z, offset: 0.0 }, true),
+        ("plane([1, 0, 0], 2.0)", Plane { axis: Axis::X, offset: 2.0 }, true),
+        ("plane([1, 2, 2], 3.0)", Plane { axis: oblique, offset: 3.0 }, true),
+        ("plane(plane(\"y\", 4.0))", Plane { axis: Axis::Y, offset: 4.0 }, true),
+        // an axis where a plane is expected: the plane through the origin
+        ("axis(\"y\")", Plane { axis: Axis::Y, offset: 0.0 }, true),
+        ("\"x\"", Plane { axis: Axis::X, offset: 0.0 }, true),
+        ("'z'", Plane { axis: Axis::Z, offset: 0.0 }, true),
+        ("axis([1, 2, 2])", Plane { axis: oblique, offset: 0.0 }, true),
+        ("x", Plane { axis: Axis::X, offset: 0.0 }, false),
+        ("[0, 1, 0]", Plane { axis: Axis::Y, offset: 0.0 }, false),
+    ];
+    for (sp, val, positional) in &planes {
+        let want: Tree = Reflect { shape: p.clone(), plane: *val }.into();
+        ok.push((format!("reflect(#{{ shape: {ps}, plane: {sp} }})"), want.clone()));
+        ok.push((format!("reflect({ps}, #{{ plane: {sp} }})"), want.clone()));
+        ok.push((format!("{ps}.reflect(#{{ plane: {sp} }})"), want.clone()));
+        if *positional {
+            ok.push((format!("reflect({ps}, {sp})"), want.clone()));
+            ok.push((format!("reflect({sp}, {ps})"), want.clone()));
+            ok.push((format!("{ps}.reflect({sp})"), want.clone()));
+        }
+    }
+    let dflt: Tree = Reflect { shape: p.clone(), plane: Plane::YZ }.into();
+    ok.push((format!("reflect(#{{ shape: {ps} }})"), dflt.clone()));
+    ok.push((format!("reflect({ps})"), dflt.clone()));
+    ok.push((format!("{ps}.reflect()"), dflt));
+    let bad = vec![
+        format!("rotate(#{{ shape: {ps}, axis: \"w\" }})"),
+        format!("rotate(#{{ shape: {ps}, axis: [0, 0, 0] }})"),
+        format!("rotate(#{{ shape: {ps}, axis: (x + 1) }})"),
+        format!("reflect(#{{ shape: {ps}, plane: \"xx\" }})"),
+        format!("reflect(#{{ plane: \"xy\" }})"),
+        "axis([0, 0, 0])".to_string(),
+        "axis(\"q\")".to_string(),
+        "plane(\"qq\")".to_string(),
+    ];
+    (ok, bad)
+}
+
+/// vec2 / vec3 constructor forms feeding a shape
+fn vec_ctor_scripts() -> (Vec<(String, Tree)>, Vec<String>) {
+    use fidget_shapes::*;
+    let c2 = |x: f32, y: f32| -> Tree { Circle { center: Vec2::new(x, y), radius: 1.0 }.into() };
+    let s3 = |x: f32, y: f32, z: f32| -> Tree { Sphere { center: Vec3::new(x, y, z), radius: 1.0 }.into() };
+    let ok = vec![
+        ("circle(#{ center: vec2([1, 2.5]) })".to_string(), c2(1.0, 2.5)),
+        ("circle(#{ center: vec2(vec2(3, 4)) })".to_string(), c2(3.0, 4.0)),
+        ("circle(#{ center: vec2(1.5, 2) })".to_string(), c2(1.5, 2.0)),
+        ("circle(vec2([7, 8]))".to_string(), c2(7.0, 8.0)),
+        ("sphere(#{ center: vec3([1, 2, 3]) })".to_string(), s3(1.0, 2.0, 3.0)),
+        ("sphere(#{ center: vec3([1, 2]) })".to_string(), s3(1.0, 2.0, 0.0)),
+        ("sphere(#{ center: vec3(vec3(4, 5.5, 6)) })".to_string(), s3(4.0, 5.5, 6.0)),
+        ("sphere(vec3([9, 8, 7]))".to_string(), s3(9.0, 8.0, 7.0)),
+        ("sphere(#{ center: vec2(1, 2) })".to_string(), s3(1.0, 2.0, 0.0)),
+    ];
+    let bad = vec![
+        "vec2([1, 2, 3])".to_string(),
+        "vec2([1])".to_string(),
+        "vec3([1])".to_string(),
+        "vec3([1, 2, 3, 4])".to_string(),
+        "vec2(x, 1)".to_string(),
+        "circle(#{ center: vec3(1, 2, 3) })".to_string(),
+    ];
+    (ok, bad)
+}
+
 #[derive(Clone, Debug)]
 enum Unit {
     Depth1,
@@ -645,10 +944,17 @@ enum Unit {
     Misc,
     /// arithmetic on vec2 / vec3 values feeding a shape constructor
     VectorOps,
+    /// named mathematical constants and shadowing of the fall-back names
+    Constants,
+    /// axes(), remap(...)
+    AxesRemap,
+    /// rotate / reflect with every spelling of an axis / a plane
+    AxisPlane,
+    VecCtors,
 }
 
 fn units(_tier: Tier) -> Vec<Unit> {
-    let mut v = vec![Unit::Depth1, Unit::Depth2Unary, Unit::Arrays, Unit::Comparisons, Unit::Misc, Unit::VectorOps];
+    let mut v = vec![Unit::Depth1, Unit::Depth2Unary, Unit::Arrays, Unit::Comparisons, Unit::Misc, Unit::VectorOps, Unit::Constants, Unit::AxesRemap, Unit::AxisPlane, Unit::VecCtors];
     for i in 0..INFIX.len() {
         v.push(Unit::Depth2Infix(i));
     }
@@ -661,52 +967,84 @@ fn units(_tier: Tier) -> Vec<Unit> {
     v
 }
 
-fn expect_ok(cx: &mut Cx, sub: &mut u64, engine: &rhai::Engine, script: &str, want: &Tree, class: &str) {
-    let s = *sub;
-    *sub += 1;
-    if !cx.case(s) {
-        return;
-    }
-    cx.add("cases", 1);
-    cx.add("evals", 1);
-    cx.add("nontrivial", 1);
-    let desc = || json!({"script": script});
-    match guard(|| engine.eval::<Tree>(script)) {
-        Ok(Ok(t)) => {
-            if &t != want {
-                cx.violation(
-                    format!("script builds a different tree ({class})"),
-                    desc(),
-                    format!("`{script}`: got {:?}, the Rust API builds {:?}", &*t, &**want),
-                );
-            }
-        }
-        Ok(Err(e)) => cx.violation(format!("script rejected ({class})"), desc(), format!("`{script}`: {e}")),
-        Err(e) => cx.violation(format!("script evaluation panicked {}", panic_site(&e)), desc(), format!("`{script}`: {e}")),
-    }
-    if s % 53 == 0 {
-        cx.sample(desc);
-    }
+struct Run<'a> {
+    cx: &'a mut Cx,
+    sub: u64,
+    engine: rhai::Engine,
+    /// the previous expected tree: a decoy that the script's tree must NOT equal
+    /// (so that `Tree::eq` answering "equal" to everything cannot pass)
+    prev: Option<Tree>,
 }
 
-fn expect_err(cx: &mut Cx, sub: &mut u64, engine: &rhai::Engine, script: &str, class: &str) {
-    let s = *sub;
-    *sub += 1;
-    if !cx.case(s) {
-        return;
+impl Run<'_> {
+    fn ok(&mut self, script: &str, want: &Tree, class: &str) {
+        let s = self.sub;
+        self.sub += 1;
+        if !self.cx.case(s) {
+            return;
+        }
+        let cx = &mut *self.cx;
+        cx.add("cases", 1);
+        cx.add("evals", 1);
+        cx.add("nontrivial", 1);
+        let desc = || json!({"script": script});
+        match guard(|| self.engine.eval::<Tree>(script)) {
+            Ok(Ok(t)) => {
+                // the oracle is the harness's own structural comparison
+                // (treecmp.rs), not the library's `Tree::eq`
+                if let Some(d) = first_difference(&t, want) {
+                    cx.violation(
+                        format!("script builds a different tree ({class})"),
+                        desc(),
+                        format!("`{script}`: first difference: {d}; got {:?}, the Rust API builds {:?}", &*t, &**want),
+                    );
+                } else if &t != want {
+                    cx.violation("Tree::eq says != for structurally identical trees", desc(), format!("`{script}`"));
+                }
+                if let Some(p) = &self.prev {
+                    let differ = !struct_eq(&t, p);
+                    cx.add("decoy_comparisons", 1);
+                    if differ {
+                        cx.add("decoys_structurally_different", 1);
+                    }
+                    if (&t != p) != differ {
+                        cx.violation(
+                            "Tree::eq disagrees with structural comparison",
+                            desc(),
+                            format!("`{script}` vs the previous case's tree {:?}: Tree::eq says {}, structure says {}", &**p, &t == p, !differ),
+                        );
+                    }
+                }
+            }
+            Ok(Err(e)) => cx.violation(format!("script rejected ({class})"), desc(), format!("`{script}`: {e}")),
+            Err(e) => cx.violation(format!("script evaluation panicked {}", panic_site(&e)), desc(), format!("`{script}`: {e}")),
+        }
+        self.prev = Some(want.clone());
+        if s % 53 == 0 {
+            cx.sample(desc);
+        }
     }
-    cx.add("cases", 1);
-    cx.add("evals", 1);
-    cx.add("must_error_cases", 1);
-    let desc = || json!({"script": script, "must_be_error": true});
-    match guard(|| engine.eval::<rhai::Dynamic>(script)) {
-        Ok(Ok(v)) => cx.violation(
-            format!("script accepted although it must be an error ({class})"),
-            desc(),
-            format!("`{script}` evaluated to a {}", v.type_name()),
-        ),
-        Ok(Err(_)) => (),
-        Err(e) => cx.violation(format!("script evaluation panicked {}", panic_site(&e)), desc(), format!("`{script}`: {e}")),
+
+    fn err(&mut self, script: &str, class: &str) {
+        let s = self.sub;
+        self.sub += 1;
+        if !self.cx.case(s) {
+            return;
+        }
+        let cx = &mut *self.cx;
+        cx.add("cases", 1);
+        cx.add("evals", 1);
+        cx.add("must_error_cases", 1);
+        let desc = || json!({"script": script, "must_be_error": true});
+        match guard(|| self.engine.eval::<rhai::Dynamic>(script)) {
+            Ok(Ok(v)) => cx.violation(
+                format!("script accepted although it must be an error ({class})"),
+                desc(),
+                format!("`{script}` evaluated to a {}", v.type_name()),
+            ),
+            Ok(Err(_)) => (),
+            Err(e) => cx.violation(format!("script evaluation panicked {}", panic_site(&e)), desc(), format!("`{script}`: {e}")),
+        }
     }
 }
 
@@ -733,10 +1071,9 @@ impl Check for C17 {
         }
     }
     fn run_unit(&self, tier: Tier, unit: usize, cx: &mut Cx) {
-        let engine = fidget_rhai::engine();
+        let mut run = Run { cx, sub: 0, engine: fidget_rhai::engine(), prev: None };
         let lv = leaves();
         let trees: Vec<E> = lv.iter().filter(|e| e.is_tree()).cloned().collect();
-        let mut sub = 0u64;
         let d1 = || -> Vec<E> {
             let mut v = one_op(&lv, &lv);
             v.extend(unary(&trees));
@@ -745,12 +1082,12 @@ impl Check for C17 {
         match units(tier)[unit].clone() {
             Unit::Depth1 => {
                 for e in d1() {
-                    expect_ok(cx, &mut sub, &engine, e.script(), &e.tree(), "depth 1");
+                    run.ok(e.script(), &e.tree(), "depth 1");
                 }
             }
             Unit::Depth2Unary => {
                 for e in unary(&d1()) {
-                    expect_ok(cx, &mut sub, &engine, e.script(), &e.tree(), "unary of depth 1");
+                    run.ok(e.script(), &e.tree(), "unary of depth 1");
                 }
             }
             Unit::Depth2Infix(i) | Unit::Depth2Fn(i) => {
@@ -769,7 +1106,7 @@ impl Check for C17 {
                                 format!("{s}({}, {})", l.script(), r.script())
                             };
                             let want = tree_bin(op, &l.tree(), &r.tree());
-                            expect_ok(cx, &mut sub, &engine, &script, &want, &format!("operator {s}"));
+                            run.ok(&script, &want, &format!("operator {s}"));
                         }
                     }
                 }
@@ -781,35 +1118,35 @@ impl Check for C17 {
                         } else {
                             format!("{s}({}, {})", a.script(), b.script())
                         };
-                        expect_ok(cx, &mut sub, &engine, &script, &tree_bin(op, &a.tree(), &b.tree()), &format!("operator {s}"));
+                        run.ok(&script, &tree_bin(op, &a.tree(), &b.tree()), &format!("operator {s}"));
                     }
                 }
             }
             Unit::Arrays => {
                 for a in arrays() {
                     for (s, op) in UNFN {
-                        expect_ok(cx, &mut sub, &engine, &format!("{s}({})", a.script()), &tree_un(op, &a.tree()), "array as tree");
+                        run.ok(&format!("{s}({})", a.script()), &tree_un(op, &a.tree()), "array as tree");
                     }
                     for (s, op) in BINFN {
                         for b in &lv {
                             // an array only coerces where the *other* operand is a
                             // Tree (dispatch is on the Tree-typed parameter)
                             if b.is_tree() {
-                                expect_ok(cx, &mut sub, &engine, &format!("{s}({}, {})", a.script(), b.script()), &tree_bin(op, &a.tree(), &b.tree()), "array as tree");
-                                expect_ok(cx, &mut sub, &engine, &format!("{s}({}, {})", b.script(), a.script()), &tree_bin(op, &b.tree(), &a.tree()), "array as tree");
+                                run.ok(&format!("{s}({}, {})", a.script(), b.script()), &tree_bin(op, &a.tree(), &b.tree()), "array as tree");
+                                run.ok(&format!("{s}({}, {})", b.script(), a.script()), &tree_bin(op, &b.tree(), &a.tree()), "array as tree");
                             }
                         }
                     }
                     for (s, op) in [("-", B::Sub), ("*", B::Mul), ("/", B::Div), ("%", B::Mod)] {
-                        expect_ok(cx, &mut sub, &engine, &format!("(x {s} {})", a.script()), &tree_bin(op, &Tree::x(), &a.tree()), "array as tree");
+                        run.ok(&format!("(x {s} {})", a.script()), &tree_bin(op, &Tree::x(), &a.tree()), "array as tree");
                     }
                 }
             }
             Unit::Comparisons => {
                 for op in ["==", "!=", "<", ">", "<=", ">="] {
                     for (a, b) in [("x", "y"), ("x", "1"), ("1", "x"), ("x", "1.5"), ("2.5", "y"), ("(x + 1)", "y"), ("sin(x)", "0")] {
-                        expect_err(cx, &mut sub, &engine, &format!("{a} {op} {b}"), "comparison on trees");
-                        expect_err(cx, &mut sub, &engine, &format!("if {a} {op} {b} {{ x }} else {{ y }}"), "comparison on trees");
+                        run.err(&format!("{a} {op} {b}"), "comparison on trees");
+                        run.err(&format!("if {a} {op} {b} {{ x }} else {{ y }}"), "comparison on trees");
                     }
                 }
             }
@@ -817,30 +1154,46 @@ impl Check for C17 {
                 let sp = specs();
                 let (ok, bad) = shape_scripts(&sp[i]);
                 for (s, t) in ok {
-                    expect_ok(cx, &mut sub, &engine, &s, &t, &format!("shape {}", sp[i].fname));
+                    run.ok(&s, &t, &format!("shape {}", sp[i].fname));
                 }
                 for s in bad {
-                    expect_err(cx, &mut sub, &engine, &s, &format!("shape {}", sp[i].fname));
+                    run.err(&s, &format!("shape {}", sp[i].fname));
                 }
             }
             Unit::VectorOps => {
                 use fidget_shapes::*;
                 for e in vector_exprs(2) {
                     let want: Tree = Circle { center: Vec2::new(e.val[0], e.val[1]), radius: 1.0 }.into();
-                    expect_ok(cx, &mut sub, &engine, &format!("circle(#{{ center: {}, radius: 1 }})", e.script), &want, "vector arithmetic (vec2)");
+                    run.ok(&format!("circle(#{{ center: {}, radius: 1 }})", e.script), &want, "vector arithmetic (vec2)");
                 }
                 for e in vector_exprs(3) {
                     let want: Tree = Sphere { center: Vec3::new(e.val[0], e.val[1], e.val[2]), radius: 1.0 }.into();
-                    expect_ok(cx, &mut sub, &engine, &format!("sphere(#{{ center: {}, radius: 1 }})", e.script), &want, "vector arithmetic (vec3)");
+                    run.ok(&format!("sphere(#{{ center: {}, radius: 1 }})", e.script), &want, "vector arithmetic (vec3)");
+                }
+            }
+            Unit::Constants | Unit::AxisPlane | Unit::VecCtors | Unit::AxesRemap => {
+                let u = units(tier)[unit].clone();
+                let (ok, bad) = match u {
+                    Unit::Constants => constant_scripts(),
+                    Unit::AxisPlane => axis_plane_scripts(),
+                    Unit::VecCtors => vec_ctor_scripts(),
+                    _ => (axes_remap_scripts(), vec![]),
+                };
+                let class = format!("{u:?}");
+                for (s, t) in ok {
+                    run.ok(&s, &t, &class);
+                }
+                for s in bad {
+                    run.err(&s, &class);
                 }
             }
             Unit::Misc => {
                 let (ok, bad) = promotion_and_reducers();
                 for (s, t) in ok {
-                    expect_ok(cx, &mut sub, &engine, &s, &t, "promotion / reducers");
+                    run.ok(&s, &t, "promotion / reducers");
                 }
                 for s in bad {
-                    expect_err(cx, &mut sub, &engine, &s, "promotion / reducers");
+                    run.err(&s, "promotion / reducers");
                 }
             }
         }
